@@ -182,7 +182,7 @@ def run_crashmon(prop, tier, t0):
                            assumptions=ASSUME_COMMON + [
                                'crash = SIGKILL of the process immediately before a libc file-system call issued under the '
                                'archive root (LD_PRELOAD interposition; open/creat/write/pwrite/writev/close/rename*/unlink*/'
-                               'rmdir/mkdir*/ftruncate/fsync/fdatasync/chmod/link/symlink), plus a half-written variant of '
+                               'rmdir/mkdir*/ftruncate/fsync/fdatasync/chmod/link/symlink/sendfile/copy_file_range), plus a half-written variant of '
                                'every write; the page cache survives (no power loss), so durability of un-synced data is not tested',
                                'crashing before a non-mutating call is state-equivalent to crashing before the next mutating one',
                                'crash-restart-crash histories are two operations deep: a quarter of the triples continue from two '
